@@ -3,11 +3,14 @@ CONSTANTS
   Accounts = {"a", "b", "c"}
   Values = {0, 1, 2, 3}
   Limits = {0, 1, 2}
+  Sizes = {1}
   MaxTs = 6
   Th = 2
   Price = 1
   MinStep = 1
   InitBal = 4
+  Rich = {"a", "b", "c"}
+  PoorBal = 0
   MaxN = 8
   MaxPool = 6
   MaxOps = 12
